@@ -100,7 +100,9 @@ _Thread_local struct ovni_rthread rthread = {0};
  * READY; 3: proc_fini won the CAS, state is GONE; 4: thread_init saw READY).
  * The default does nothing; a test driver may provide its own definition to
  * hold a thread at one of these points. */
-__attribute__((weak, visibility("default"))) void
+__attribute__((weak, visibility("default"))) void ovni_verif_point(int id);
+
+void
 ovni_verif_point(int id)
 {
 	(void) id;
